@@ -351,19 +351,120 @@ async fn scenario(mon: &Monitor, rng: &mut Rng, realtime: bool) {
     }
 }
 
+/// Peer churn against back-to-back local work: one node answers thousands of local closest-node
+/// queries (what every served FIND_NODE and every lookup round starts with) in tight loops while
+/// short-lived peers connect and disconnect. No await in those loops ever has to wait, so the
+/// scheduler interleaves the tasks only where its cooperative budget runs out - inside lock
+/// acquisitions. Everything must finish, the node must still answer, and stop() must return.
+async fn churn_lane(mon: &Monitor, rng: &mut Rng) {
+    let n = rng.urange(3, 8);
+    let cfg = NodeCfg { request_timeout: REQ_TO, connection_timeout: REQ_TO / 2, ..Default::default() };
+    let w = match World::build(rng, n, Topo::FullMesh, &cfg).await {
+        Ok(w) => Arc::new(w),
+        Err(_) => return,
+    };
+    let x = 0usize;
+    let loops = rng.urange(2, 4);
+    let per_loop = rng.urange(300, 1500);
+    let bound = REQ_TO * 30;
+    let mut hs = Vec::new();
+    for l in 0..loops {
+        let w2 = w.clone();
+        let seed = rng.next_u64();
+        hs.push(tokio::spawn(async move {
+            let mut r = Rng::new(seed);
+            for _ in 0..per_loop {
+                let key = r.arr32();
+                let _ = w2.nodes[x].mgr.find_closest_nodes_local(&key, 8).await;
+                // other cheap calls in between shift where in a query the cooperative budget runs out
+                match r.below(6) {
+                    0 => {
+                        let _ = w2.nodes[x].mgr.get_stats().await;
+                    }
+                    1 => {
+                        let _ = w2.nodes[x].mgr.verif_dht_peers().await;
+                    }
+                    _ => {}
+                }
+            }
+            l
+        }));
+    }
+    let churn = rng.urange(200, 1500);
+    {
+        let w2 = w.clone();
+        let seed = rng.next_u64();
+        hs.push(tokio::spawn(async move {
+            let mut r = Rng::new(seed);
+            for c in 0..churn {
+                let tid = r.arr32();
+                let addr = sim_addr(2000 + c);
+                let _rx = w2.hub.register_puppet(tid, addr);
+                let h = hex::encode(tid);
+                w2.nodes[x].transport.verif_accept(&h, addr).await;
+                for _ in 0..r.below(3) {
+                    tokio::task::yield_now().await;
+                }
+                let _ = w2.nodes[x].transport.disconnect_peer(&h).await;
+                // (no timer here: under the paused clock a sleep would park the churn until the lookup
+                // loops, which never go idle, are over)
+                if r.chance(0.2) {
+                    tokio::task::yield_now().await;
+                }
+            }
+            usize::MAX
+        }));
+    }
+    mon.eval();
+    mon.case(("churn", n, loops, (per_loop / 300).min(5), (churn / 50).min(6)));
+    mon.count("churn.worlds", 1);
+    let all = tokio::time::timeout(bound, futures::future::join_all(hs)).await;
+    let ctx = |extra: serde_json::Value| json!({"n": n, "local_lookup_loops": loops, "lookups_per_loop": per_loop, "connect_disconnect_cycles": churn, "bound_ms": bound.as_millis() as u64, "detail": extra});
+    if all.is_err() {
+        mon.violation("completion/local-lookups-or-peer-churn-hang", ctx(json!({"what": "back-to-back local closest-node queries and peer connect/disconnect cycles on one node did not all finish"})));
+        // the node is wedged: anything else asked of it (even a state accessor) could wait for ever
+        return;
+    }
+    // the node still serves a request and still stops
+    mon.eval();
+    let ping = tokio::time::timeout(REQ_TO * 2, w.nodes[1].mgr.ping(&w.nodes[x].tid_hex)).await;
+    if !matches!(ping, Ok(Ok(_))) {
+        mon.violation("inbound/node-stopped-serving-requests/after-peer-churn", ctx(json!({"result": format!("{:?}", ping.map(|r| r.map(|_| ()).map_err(|e| e.to_string())))})));
+    }
+    for nd in w.nodes.iter() {
+        let peers = match tokio::time::timeout(REQ_TO, nd.mgr.verif_dht_peers()).await {
+            Ok(p) => p.len(),
+            Err(_) => {
+                mon.violation("completion/state-accessor-hangs/after-peer-churn", ctx(json!({})));
+                return;
+            }
+        };
+        let sb = (REQ_TO * (peers as u32 + 1)).mul_f64(1.5) + Duration::from_secs(1);
+        mon.eval();
+        if tokio::time::timeout(sb, nd.mgr.stop()).await.is_err() {
+            mon.violation("stop/exceeded-bound", ctx(json!({"peers": peers, "phase": "after-peer-churn"})));
+        }
+        let _ = tokio::time::timeout(Duration::from_secs(600), nd.transport.stop()).await;
+    }
+}
+
 fn main() {
     let mon = Monitor::new("C20", "exploration");
     mon.set_rule("case = one run: N real nodes, 4..40 concurrent find_node/put/get/ping/closest per node, seeded delivery jitter and yields, peers silenced at seeded virtual instants, stop() at a seeded instant; non-trivial when >=2 concurrent ops; distinct by (hash of the frame sequence, stop phase)");
     mon.assume("bounds in virtual time from the code's constants: lookup 20*(dial+request), put/get + one request, stop (peers+1)*request, each x1.5; real-time lane judges only 30x the bound");
     let per_shard = mon.by_tier(200u64, 900);
     vkit::run_shards(mon.shards(), mon.seed, |_i, mut rng| {
-        for _ in 0..per_shard {
+        for k in 0..per_shard {
             if mon.spent(0.85) {
                 break;
             }
             let rt = checks::rt(true);
             rt.block_on(scenario(&mon, &mut rng, false));
             mon.count("runs.virtual", 1);
+            if k % 8 == 3 {
+                let rt = checks::rt(true);
+                rt.block_on(churn_lane(&mon, &mut rng));
+            }
         }
     });
     // real-time, multi-thread lane: genuine lock contention; hard hangs only
